@@ -82,7 +82,9 @@ Fixpoint native_entries (d : list (key * value)) (acc : list dentry) : result (l
   match d with
   | [] => Ok acc
   | (k, x) :: r =>
-      do s <- (if is_vell x then Ok None else rmap Some (sub_from_native x));
+      (* `...: ...` keeps the dict relaxed; under a real key `...` stands for any value *)
+      do s <- (if is_vell x then Ok (if is_kell k then None else Some (SAny None))
+               else rmap Some (sub_from_native x));
       native_entries r (set_entry k s false acc)
   end.
 
